@@ -350,11 +350,11 @@ _s = ",".join(str(e) for e in sorted(set(range(-344, 346, 16)) | set(range(-6, 2
 _L = "--lemire=-345..345"
 add(
     H("s_float_fast_bounds", "smt", ["C02", "C07", "C08"], SMT_FUNCS,
-      "decimal exponents -308..=-304 and 284..=293 (both ends of the table-product guard), -24..=-21, 21..=24 and 36..=39 (the ends of the one-operation path) x every significand 1 <= w < 10^19 x sign; 20 s per query",
-      stubs=SMT_CUTS, args=["float_check.py", "--exps=" + _b, _L, "--jobs", "8", "--timeout-ms", "20000"], cost=150, timeout=850),
+      "decimal exponents -308..=-304 and 284..=293 (both ends of the table-product guard), -24..=-21, 21..=24 and 36..=39 (the ends of the one-operation path) x every significand 1 <= w < 10^19 x sign; 60 s per query",
+      stubs=SMT_CUTS, args=["float_check.py", "--exps=" + _b, _L, "--jobs", "8", "--timeout-ms", "60000"], cost=150, timeout=850),
     H("s_float_fast_sampled", "smt", ["C07", "C08"], SMT_FUNCS,
-      "every 16th decimal exponent in -344..=344 and all of -6..=24 x every significand 1 <= w < 10^19, sign flag false (the sign is decided by s_float_fast_bounds / _all); 20 s per query",
-      stubs=SMT_CUTS, args=["float_check.py", "--exps=" + _s, _L, "--neg", "false", "--jobs", "8", "--timeout-ms", "20000"], cost=100, timeout=850),
+      "every 16th decimal exponent in -344..=344 and all of -6..=24 x every significand 1 <= w < 10^19, sign flag false (the sign is decided by s_float_fast_bounds / _all); 60 s per query",
+      stubs=SMT_CUTS, args=["float_check.py", "--exps=" + _s, _L, "--neg", "false", "--jobs", "8", "--timeout-ms", "60000"], cost=100, timeout=850),
     H("s_float_fast_all", "smt", ["C02", "C07", "C08"], SMT_FUNCS,
       "every decimal exponent in -345..=345 x every significand 1 <= w < 10^19 x sign; 120 s per query",
       stubs=SMT_CUTS, args=["float_check.py", "--emin", "-345", "--emax", "345", _L, "--jobs", "14", "--timeout-ms", "120000"], tier=T, cost=1800, timeout=7200),
@@ -363,12 +363,12 @@ add(
       "need 1..=16 x position 1..=16 of the first non-digit (16 = none) x its class (three byte ranges) x every value of all 16 bytes; result == (decimal value of the first min(need, p) digits, min(need, p))",
       stubs=["models: 16 x86 intrinsics lane-wise after the Intel pseudo-code (smt/mir2smt.py SIMD table; same semantics as harness/common/intrinsics.rs, which the self-test compares with the CPU)",
              "assumption: the first byte is a digit (parse_number_fraction is entered on a digit)"],
-      args=["simd_check.py", "--jobs", "6", "--timeout-ms", "20000"], cost=10, timeout=600),
+      args=["simd_check.py", "--jobs", "6", "--timeout-ms", "60000"], cost=10, timeout=600),
     H("s_parse_number_shapes", "smt", ["C07", "C02", "C08"], ["sonic_number::parse_number", "parse_number_fraction", "parse_exponent", "arch::fallback::simd_str2int (scalar 16-digit reader)", "POW10_UINT"],
       "1764 literal shapes: sign x integer part (0, or 1/2/3/16..21 digits) x 0/1/2/3/15..19 fraction digits x {no exponent, e dd, E-d, e+ddd} x {end of input, more input}, plus 324 malformed ones (dot or exponent marker without a digit) that must be rejected; every value of every digit",
       stubs=["opaque: parse_float - its arguments are what is asserted (what it returns for them is decided by the s_float_* runs)",
              "what follows the literal is one fixed 25-byte tail (the scanner only looks at its length)"],
-      args=["number_check.py", "--jobs", "8", "--timeout-ms", "20000", "--shapes", "quick"], cost=130, timeout=850),
+      args=["number_check.py", "--jobs", "8", "--timeout-ms", "60000", "--shapes", "quick"], cost=130, timeout=850),
     H("s_parse_number_shapes_all", "smt", ["C07", "C02", "C08"], ["sonic_number::parse_number", "parse_number_fraction", "parse_exponent", "arch::fallback::simd_str2int (scalar 16-digit reader)", "POW10_UINT"],
       "every shape with sign x integer part (0, or 1..=22 digits) x 0..=22 fraction digits x {no exponent, e/E x sign/no sign x 1..=3 digits} x {end of input, more input}, plus the malformed ones (dot or exponent marker without a digit); every value of every digit",
       stubs=["opaque: parse_float - its arguments are what is asserted (what it returns for them is decided by the s_float_* runs)",
